@@ -537,6 +537,14 @@ func (p *Path) runInit(pkg *ssa.Package) {
 	if init == nil || init.Blocks == nil {
 		return
 	}
+	// variables the package's init gives a value: until that store has been executed on
+	// this path they are marked, and reading a marked variable ends the path as
+	// unsupported (init skipped for this package, or cut short by an unsupported construct)
+	for _, g := range p.eng.initStored(pkg) {
+		if o := p.globals[g]; o != nil {
+			o.Uninit = true
+		}
+	}
 	if p.eng.skipInit[pkg.Pkg.Path()] {
 		return
 	}
@@ -2182,4 +2190,53 @@ func (p *Path) execInitInstr(fr *Frame, ins ssa.Instruction) {
 		}
 	}()
 	p.execInstr(fr, ins)
+}
+
+
+// initStored lists the package-level variables that the package's init function (or an
+// init#N function it calls) stores to directly.
+func (e *Engine) initStored(pkg *ssa.Package) []*ssa.Global {
+	e.initMu.Lock()
+	defer e.initMu.Unlock()
+	if r, ok := e.initStoredCache[pkg]; ok {
+		return r
+	}
+	set := map[*ssa.Global]bool{}
+	var root func(v ssa.Value) *ssa.Global
+	root = func(v ssa.Value) *ssa.Global {
+		switch x := v.(type) {
+		case *ssa.Global:
+			return x
+		case *ssa.FieldAddr:
+			return root(x.X)
+		case *ssa.IndexAddr:
+			return root(x.X)
+		}
+		return nil
+	}
+	scan := func(fn *ssa.Function) {
+		for _, b := range fn.Blocks {
+			for _, in := range b.Instrs {
+				if st, ok := in.(*ssa.Store); ok {
+					if g := root(st.Addr); g != nil && g.Pkg == pkg {
+						set[g] = true
+					}
+				}
+			}
+		}
+	}
+	for name, m := range pkg.Members {
+		if fn, ok := m.(*ssa.Function); ok && (name == "init" || strings.HasPrefix(name, "init#")) {
+			scan(fn)
+		}
+	}
+	var out []*ssa.Global
+	for g := range set {
+		out = append(out, g)
+	}
+	if e.initStoredCache == nil {
+		e.initStoredCache = map[*ssa.Package][]*ssa.Global{}
+	}
+	e.initStoredCache[pkg] = out
+	return out
 }
